@@ -18,7 +18,9 @@ STUBS = r'''
 #ifndef VP_NDG
 #define VP_NDG 1
 #endif
-#define VP_DG_MAX 1500
+#ifndef VP_DG_MAX
+#define VP_DG_MAX 1500     /* = the listeners' receive buffer size (scaled runs redefine both) */
+#endif
 #ifndef VP_LEN_MAX
 #define VP_LEN_MAX VP_DG_MAX      /* bound on the RECEIVED length; the buffer tail stays arbitrary */
 #endif
@@ -240,7 +242,7 @@ def c19_tunnel(nframes, tscf, udp, fd, fixed_lens=()):
     o.append('#define VP_CAPTURE_WRITE(b, n) vp_capture(b, n)')
     o.append(STUBS.replace('typedef struct { uint8_t d[VP_NDG][VP_DG_MAX]; uint16_t len[VP_NDG]; uint8_t cfg[4]; uint8_t st[16]; } vp_in_t;',
                            'typedef struct { uint8_t d[VP_NDG][VP_DG_MAX]; uint16_t len[VP_NDG]; uint8_t cfg[4]; uint8_t st[16]; '
-                           'struct { uint32_t can_id; uint8_t len; uint8_t flags; uint8_t data[%d]; } fr[%d]; uint8_t pdu0[200]; } vp_in_t;' % (maxlen, nframes)))
+                           'struct { uint32_t can_id; uint8_t len; uint8_t flags; uint8_t data[%d]; } fr[%d]; uint8_t pdu0[VP_DG_MAX < 200 ? VP_DG_MAX : 200]; } vp_in_t;' % (maxlen, nframes)))
     o.append('#include "avtp/acf/Can.h"')
     o.append('int setup_can_socket(const char *ifn, Avtp_CanVariant_t variant) { (void)ifn; (void)variant; return 4; }')
     o.append('#define main listener_main')
